@@ -5,7 +5,7 @@
    SCREEN n, SCREEN(r,c), typed text); INV is the invariant all of them keep. *)
 From Coq Require Import ZArith List Bool.
 From PCB Require Import lib.Result lib.PyInt model.Cursor
-  proofs.Cursor_lists proofs.Cursor_inv proofs.Cursor_place proofs.Cursor_flags proofs.Cursor_proofs.
+  proofs.Cursor_lists proofs.Cursor_inv proofs.Cursor_place proofs.Cursor_flags proofs.Cursor_term proofs.Cursor_proofs.
 Import ListNotations.
 Open Scope Z_scope.
 
@@ -250,4 +250,49 @@ Example C36_flags_nonvacuous :
   (row s, col s, ovf s) = (24, 1, false) /\ get_cell (cells s) 23 80 = 66 /\ get_cell (cells s) 24 1 = 65.
 Proof.
   cbv zeta. split; [apply reachable_INV|]. vm_compute. repeat split; try reflexivity; discriminate.
+Qed.
+
+(* ---- control characters.  `term` (proofs/Cursor_term.v) is a reference terminal written as a specification: a
+   grid function, a cursor with deferred wrap (column W+1 = line full), logical-line flags; `t_write` interprets
+   printable characters, CR, LF (next row, scrolling only the window), TAB (spaces up to the next 8-column stop,
+   written as spaces), BEL, HOME (11: window top) and CLS (12: window cleared).  Console.write of ANY text over that
+   alphabet (everything but the cursor codes 28-31), from any state with the cursor in the window - continuation
+   flags of any kind included, a screen without stale flags is the special case - gives exactly the cells, the
+   cursor row and the CSRLIN / POS values of the reference terminal. *)
+Theorem C36_console_text : forall s0 str, INV s0 -> bra s0 = false -> top s0 <= row s0 <= bot s0 ->
+  (ovf s0 = true -> col s0 = width s0) -> Forall (fun c => term_char c = true) str ->
+  let W := width s0 in let T := top s0 in let B := bot s0 in
+  let s := console_write s0 str in
+  let t := t_write W T B (term0 s0) str in
+  same_env s0 s /\
+  (forall R C, 1 <= R <= height s0 -> 1 <= C <= W -> get_cell (cells s) R C = tg t R C) /\
+  row s = tr t /\ T <= row s <= B /\ csrlin s = t_csrlin W B t /\ pos s = t_pos W t.
+Proof. exact console_write_refines. Qed.
+Print Assumptions C36_console_text.
+
+(* plain CLS with no VIEW PRINT window (key bar off) blanks every row, row 25 included, and homes the cursor *)
+Theorem C36_cls_clears_all : forall s, INV s -> act s = false -> barvis s = false ->
+  let s' := fst (cls s None) in
+  snd (cls s None) = Ok tt /\
+  (forall R C, 1 <= R <= height s -> 1 <= C <= width s -> get_cell (cells s') R C = 32) /\
+  row s' = 1 /\ col s' = 1 /\ ovf s' = false /\ same_env s s'.
+Proof. exact cls_plain_clears_all. Qed.
+Print Assumptions C36_cls_clears_all.
+
+(* non-vacuity: "AB<TAB>C<CR>" + 78 x "D" + <HOME> + "E" on the start screen: the reference terminal has C at (1,9),
+   D from (2,1), E over the A, cursor (1,2) - and so has the model *)
+Example C36_console_text_nonvacuous :
+  let str := [65; 66; 9; 67; 13] ++ repeat 68 78 ++ [11; 69] in
+  let t := t_write 80 1 24 (term0 init_st) str in
+  Forall (fun c => term_char c = true) str /\
+  (tg t 1 9, tg t 1 3, tg t 2 78, tg t 1 1, tr t, tc t) = (67, 32, 68, 69, 1, 2) /\
+  (get_cell (cells (console_write init_st str)) 1 9, csrlin (console_write init_st str), pos (console_write init_st str))
+    = (67, 1, 2).
+Proof.
+  cbv zeta. split; [|vm_compute; split; reflexivity].
+  apply Forall_forall. intros c Hc. apply in_app_or in Hc. destruct Hc as [Hc | Hc].
+  - simpl in Hc. repeat (destruct Hc as [<- | Hc]; [reflexivity|]). contradiction.
+  - apply in_app_or in Hc. destruct Hc as [Hc | Hc].
+    + apply repeat_spec in Hc. subst. reflexivity.
+    + simpl in Hc. repeat (destruct Hc as [<- | Hc]; [reflexivity|]). contradiction.
 Qed.
